@@ -201,10 +201,21 @@ func record(st *vk.FieldStat, key string, h header, fileLineLen int) {
 	}
 }
 
+// layout instances are long-lived in a running system: they are kept per width and reused across
+// events, so that anything a layout remembers from one event to the next is exercised
+var (
+	jsonLayouts = map[int]*log.JSONLayout{}
+	textLayouts = map[int]*log.TextLayout{}
+)
+
 func formatBoth(e *log.Event, w int) (j, x []byte, p any) {
 	p = vk.Catch(func() {
-		jl := &log.JSONLayout{BaseLayout: log.BaseLayout{FileLineLength: w}}
-		tl := &log.TextLayout{BaseLayout: log.BaseLayout{FileLineLength: w}}
+		jl, tl := jsonLayouts[w], textLayouts[w]
+		if jl == nil {
+			jl = &log.JSONLayout{BaseLayout: log.BaseLayout{FileLineLength: w}}
+			tl = &log.TextLayout{BaseLayout: log.BaseLayout{FileLineLength: w}}
+			jsonLayouts[w], textLayouts[w] = jl, tl
+		}
 		j = bytes.Clone(jl.ToBytes(e))
 		x = bytes.Clone(tl.ToBytes(e))
 	})
@@ -238,6 +249,30 @@ func property(t *rapid.T) {
 	}
 	if err := checkTextLine(tl, want); err != nil {
 		t.Fatalf("VERIF-VIOLATION C08: %v\njson: %q\nevent: %s", err, jl, desc)
+	}
+	// a follow-up event through the same layout instances: the same instant's second seen from
+	// another zone (or the neighbouring millisecond / second), everything else unchanged
+	if rapid.Bool().Draw(t, "followUp") {
+		h2 := h
+		shift := rapid.SampledFrom([]time.Duration{0, time.Millisecond, 999 * time.Millisecond, time.Second, -time.Second}).Draw(t, "shift")
+		off := rapid.SampledFrom([]int{0, 3600, -3600, 19800, -34200, 50400, -50400}).Draw(t, "zone2")
+		h2.Time = h.Time.Truncate(time.Second).Add(shift).In(time.FixedZone("z2", off))
+		if y := h2.Time.Year(); y < 1 || y > 9999 {
+			return
+		}
+		e2 := &log.Event{Level: h2.Level, Time: h2.Time, File: h2.File, Line: h2.Line, Tag: h2.Tag, Fields: fld.Fields, CtxString: h2.Ctx, CtxFields: ctx.Fields}
+		jl2, tl2, p2 := formatBoth(e2, h2.W)
+		vk.Class("follow-up-event-same-layout")
+		if p2 != nil {
+			t.Fatalf("VERIF-VIOLATION C08: formatting the follow-up event panicked: %v\nevent: %s", p2, h2.desc())
+		}
+		want2, err := expectedText(jl2, h2, vk.ExpFileLine(h2.File, h2.Line, h2.W), exp)
+		if err != nil {
+			t.Fatalf("VERIF-VIOLATION C08: %v\nfollow-up event: %s", err, h2.desc())
+		}
+		if err := checkTextLine(tl2, want2); err != nil {
+			t.Fatalf("VERIF-VIOLATION C08: follow-up event through the same layout: %v\nfirst event: %s\nfollow-up:  %s", err, h.desc(), h2.desc())
+		}
 	}
 }
 
